@@ -2,13 +2,13 @@
 # usage: try_seed.sh <patch> <prop> [<prop>...]   -- applies a seeded change to /repo, runs the quick checks, reverts
 patch=$1; shift
 cd /repo || exit 2
-if ! git apply --check "$patch" 2>/dev/null; then
-  if ! git apply --3way --check "$patch" 2>/dev/null; then echo "PATCH DOES NOT APPLY: $patch"; exit 3; fi
-fi
-git apply "$patch" 2>/dev/null || git apply --3way "$patch"
+
+
+
+/verif/tools/apply_seed.sh "$patch" || exit 3
 for p in "$@"; do
   echo "=== $p on $(basename $(dirname $patch))/$(basename $patch)"
   /verif/check $p --tier ${TIER:-quick} 2>&1 | grep -E "VIOLATION|KNOWN|OK property|MACHINERY|violation " | head -6
   echo "exit=${PIPESTATUS[0]}"
 done
-git -C /repo checkout -- . ; git -C /repo status --short | head -3
+/verif/tools/unapply_seed.sh
